@@ -449,6 +449,14 @@ class io_uring_context::read_sender {
       UNIFEX_ASSERT(context_.is_running_on_io_thread());
       stopCallback_.construct(
           get_stop_token(receiver_), cancel_callback{*this});
+      submit_io();
+    }
+
+    static void on_retry_submit(operation_base* op) noexcept {
+      static_cast<operation*>(op)->submit_io();
+    }
+
+    void submit_io() noexcept {
       auto populateSqe = [this](io_uring_sqe& sqe) noexcept {
         sqe.opcode = IORING_OP_READV;
         sqe.fd = fd_;
@@ -462,7 +470,8 @@ class io_uring_context::read_sender {
       };
 
       if (!context_.try_submit_io(populateSqe)) {
-        this->execute_ = &operation::on_schedule_complete;
+        // the stop callback is already registered: retry only the submission
+        this->execute_ = &operation::on_retry_submit;
         context_.schedule_pending_io(this);
       }
     }
@@ -647,6 +656,14 @@ class io_uring_context::write_sender {
       UNIFEX_ASSERT(context_.is_running_on_io_thread());
       stopCallback_.construct(
           get_stop_token(receiver_), cancel_callback{*this});
+      submit_io();
+    }
+
+    static void on_retry_submit(operation_base* op) noexcept {
+      static_cast<operation*>(op)->submit_io();
+    }
+
+    void submit_io() noexcept {
       auto populateSqe = [this](io_uring_sqe& sqe) noexcept {
         sqe.opcode = IORING_OP_WRITEV;
         sqe.fd = fd_;
@@ -660,7 +677,8 @@ class io_uring_context::write_sender {
       };
 
       if (!context_.try_submit_io(populateSqe)) {
-        this->execute_ = &operation::on_schedule_complete;
+        // the stop callback is already registered: retry only the submission
+        this->execute_ = &operation::on_retry_submit;
         context_.schedule_pending_io(this);
       }
     }
